@@ -828,6 +828,19 @@ func c17Oracle(c *oracleCtx) {
 							return fmt.Sprintf("Sort gives %s, sorted multiset is %s", show(got), show(want))
 						}
 					}
+					// the multiset is kept exactly: the two float zeros are different values of it
+					bits := func(vs []any) map[uint64]int {
+						m := map[uint64]int{}
+						for _, v := range vs {
+							if f, ok := v.(float64); ok {
+								m[math.Float64bits(f)]++
+							}
+						}
+						return m
+					}
+					if !reflect.DeepEqual(bits(got), bits(src)) {
+						return fmt.Sprintf("Sort changed the multiset of floats: %s from %s (signs of zero)", show(got), show(src))
+					}
 					l.Sort()
 					if !sameSeq(snapL(l), got) {
 						return "sorting twice differs from sorting once"
